@@ -177,7 +177,23 @@ def t_dot(cx, it):
 
 def t_add_constant(cx, it):
     import statsmodels.api as sm
-    x = rng.normal(0, 1, int(rng.integers(1, 6))).round(2)
+    from pyvc.core import SymRaise
+    x = rng.normal(0, 1, int(rng.integers(0, 6))).round(2)
+    if len(x) == 0:
+        # the library refuses an empty array: the model must raise the same exception class
+        try:
+            sm.add_constant(x, prepend=True, has_constant="add")
+            lib = None
+        except Exception as e:
+            lib = type(e)
+        try:
+            npmodels._np_tensor_models.add_constant(it, sym_of(cx, x), prepend=True, has_constant="add")
+            mod = None
+        except SymRaise as e:
+            mod = e.exc.cls if hasattr(e, "exc") else getattr(e.args[0], "cls", None)
+        if lib is not mod:
+            raise PathInfeasible(f"add_constant on an empty array: library {lib}, model {mod}")
+        x = np.array([0.5])
     return npmodels._np_tensor_models.add_constant(it, sym_of(cx, x), prepend=True, has_constant="add"), sm.add_constant(x, prepend=True, has_constant="add"), len(x)
 
 
